@@ -19,10 +19,10 @@ from lib import driver as D
 # "d" of their own - the day of a date - so the depth is read at its place, never searched for)
 END_OF_BLOCK = re.compile(r'^\{"cls":"[A-Z]","d":1,')
 CHUNK = 40000          # events per TLC run, cut at evaluation-block boundaries
-TWINS = {"C06": "andFalseNeedsBoth", "C05": "intDecimalNoPromote", "C08": "c08twins", "C14": "byteLength", "C13": "toIntegerAcceptsDecimalString", "C09": "weekIs5Days",
+TWINS = {"C06": ("andFalseNeedsBoth", "iifManyIsTrue"), "C05": "intDecimalNoPromote", "C08": "c08twins", "C14": "byteLength", "C13": "toIntegerAcceptsDecimalString", "C09": "weekIs5Days",
          "C10": "c10twins", "C07": "concatEmptyIsEmpty", "C12": "isNeverSubtype"}
 # the laws a (composite) wrong variant must make the recorded trace break - each of them, or the trace does not exercise that law
-TWIN_LAWS = {"c08twins": ("arith", "mathfn"), "c10twins": ("setfn",), "concatEmptyIsEmpty": ("concat",), "isNeverSubtype": ("typeop",)}
+TWIN_LAWS = {"c08twins": ("arith", "mathfn"), "c10twins": ("setfn",), "concatEmptyIsEmpty": ("concat",), "isNeverSubtype": ("typeop",), "iifManyIsTrue": ("iif",)}
 # value laws (eqval/cmpval C05, arith C08, strfn C14): the node whose logged outcome the binding probe corrupts
 VALUE_PROBE = {"C05": ("Equality", "eqval"), "C08": ("Arithmetic", "arith"), "C14": ("Function", "strfn"), "C13": ("Function", "convfn"), "C10": ("Function", "setfn")}
 
@@ -152,8 +152,8 @@ def _extend(ctx, verdicts, by_id, reruns=(), repo_tests=True):
                       "node_trace_laws_broken_charged_to_other_properties": len(vs) - len(mine)})
     ctx.nodetrace_evals = total // 2
     try:
-        twin = TWINS.get(ctx.prop)
-        if twin:
+        twins = TWINS.get(ctx.prop) or ()
+        for twin in ([twins] if isinstance(twins, str) else list(twins)):
             tv, _ = judge_trace(ctx, trace, mutant=twin, tag="nodetrace-twin")
             need = TWIN_LAWS.get(twin)
             seen = set(v["law"] for v in tv if v["prop"] == ctx.prop)
